@@ -201,7 +201,7 @@ def model_checks(v, tier):
         vf.log("model self-check: %s/%s violates %s over histories (as it must)" % (module, cfg, r["violated"]))
         return r
 
-    ex = concurrent.futures.ThreadPoolExecutor(max_workers=6)
+    ex = concurrent.futures.ThreadPoolExecutor(max_workers=8)
     fg = [ex.submit(run_good, j) for j in good]
     fd = [ex.submit(run_dev, j) for j in DEVIATIONS]
 
